@@ -154,4 +154,14 @@ theorem fromBasePath_toBasePath (base cwd p : Bytes) (hb : base ≠ []) (hcwd : 
     fromBasePath base (toBasePath base cwd p) = some (Path.clean .linux (Path.abs .linux p cwd)) ∨ p = [] :=
   Or.inl (fromBasePath_toBasePath_strong base cwd p hcwd)
 
+/-! ### Getwd after the repair (`inBase`: the base's current directory is the base path or BELOW it, not only a string
+    with the base path as prefix) -/
+
+theorem inBase_prefix {base p : Bytes} (h : inBase base p = true) : base.isPrefixOf p = true := by
+  unfold inBase at h
+  exact (Bool.and_eq_true _ _ ▸ h).1
+
+theorem inBase_self (base : Bytes) : inBase base base = true := by
+  simp [inBase]
+
 end Avfs.Wrap
